@@ -811,6 +811,33 @@ def c06_oracle_cases(tier, seed):
         if rng.random() < 0.3:       # the ring survives the read
             cmds += [Cmd(["C-y"], "yank")] + [Cmd(["M-y"], "yankpop")] * rng.randint(0, 2) + [Cmd(["Enter"], "enter")]
         cases.append(script_case(cmds, mode="emacs", reads=3, timeout=rng.choice(["none", 0]), prompt="> ", history=["zq", "qz"]))
+    # a window resize is no command: kills on either side of it accumulate, a yank-pop after it still follows its yank
+    # (one chunk per command; the resize happens once the command before it has been consumed; no model for signals:
+    # judged by the reference ring only)
+    for _ in range(max(6, n // 10)):
+        words = [rng.choice(["alpha", "beta", "gamma", "delta", "é日", "x_y", "w" * 9]) for _ in range(rng.randint(3, 6))]
+        cmds = [Cmd([ch], "ins", c=ord(ch), n=1) for ch in " ".join(words)]
+        at = []
+        for _ in range(rng.randint(2, 5)):
+            r = rng.random()
+            if r < 0.6:
+                key, tag = rng.choice([("C-w", "killbbig"), ("M-Backspace", "killbword"), ("C-w", "killbbig")])
+                cmds.append(Cmd([key], tag))
+            elif r < 0.8:
+                cmds.append(Cmd(["C-y"], "yank"))
+                if rng.random() < 0.6:
+                    at.append(len(cmds) - 1)
+                    cmds.append(Cmd(["M-y"], "yankpop"))
+            else:
+                cmds.append(Cmd([rng.choice(["C-a", "C-e"])], "home" if cmds and False else "end"))
+                cmds[-1] = Cmd(["C-e"], "end")
+            if rng.random() < 0.6:
+                at.append(len(cmds) - 1)
+        cmds += [Cmd(["C-y"], "yank"), Cmd(["Enter"], "enter")]
+        chunks = [b"".join(p_tty.key_bytes(k) for k in cmd.keys) for cmd in cmds]
+        c = script_case(cmds, mode="emacs", reads=1, timeout=rng.choice(["none", 0]), prompt="> ", chunks=chunks, cols=40)
+        c.meta["events"] = {k: [("winch", rng.choice([20, 12, 30, 80]))] for k in sorted(set(at))}
+        cases.append(c)
     return cases
 
 
